@@ -132,6 +132,11 @@ def programs(tier: str):
         for a in itertools.product(("caught", "value"), repeat=limit + 1):
             for b in itertools.product(("caught", "value", "other"), repeat=limit + 1):
                 yield {"concurrent": True, "limit": limit, "seqs": [list(a), list(b)]}
+                if "other" not in b:
+                    # ... with a delay function (own pauses per call), also with both calls failing
+                    # in the same loop iteration
+                    yield {"concurrent": True, "limit": limit, "seqs": [list(a), list(b)], "cdelay": True}
+                    yield {"concurrent": True, "limit": limit, "seqs": [list(a), list(b)], "cdelay": True, "batch": 2}
 
 
 def explore_config(tier: str, program) -> dict:
@@ -268,17 +273,27 @@ def _concurrent(program, ch: Chooser) -> Result:
     from hv.world import World
 
     limit, seqs = program["limit"], program["seqs"]
-    w = World(ch)
+    w = World(ch, batch=program.get("batch", 1))
     viols: list[dict] = []
+    cdelay = program.get("cdelay")
     try:
         calls: dict[int, list] = {0: [], 1: []}
 
-        @retry(limit=limit, catching=Caught)
+        def delay_of(attempt, exc):
+            # depends on the attempt AND on the failing call (its exception carries the caller)
+            return 0.25 * attempt + (0.125 if str(exc).endswith("@1") else 0.0)
+
+        @retry(limit=limit, catching=Caught, **({"delay": delay_of} if cdelay else {}))
         async def afn(who):
             k = len(calls[who])
-            rec = {"kind": seqs[who][k] if k < len(seqs[who]) else "value"}
+            rec = {"kind": seqs[who][k] if k < len(seqs[who]) else "value", "t_start": vtime.now()}
             calls[who].append(rec)
             await w.pause(f"c{who}.{k}")
+            rec["t_end"] = vtime.now()
+            if cdelay and rec["kind"] != "value":
+                rec["exc"] = _make_exc(rec["kind"], k)
+                rec["exc"].args = (f"{rec['kind']}#{k}@{who}",)
+                raise rec["exc"]
             if rec["kind"] == "value":
                 rec["val"] = object()
                 return rec["val"]
@@ -316,6 +331,13 @@ def _concurrent(program, ch: Chooser) -> Result:
                     viols.append(viol("last-outcome", "overlapping-calls", f"outcome of call {exp} of caller {who}", got[who][0], trace=w.trace))
             if not tasks[who].done():
                 viols.append(viol("termination", "overlapping-calls", "done", "pending"))
+            if cdelay and len(calls[who]) == exp:
+                # exactly one pause between consecutive attempts of THIS call, equal to the delay
+                # function applied to (its attempt number, its exception) - whatever the other call does
+                gaps = [calls[who][i + 1]["t_start"] - calls[who][i]["t_end"] for i in range(len(calls[who]) - 1)]
+                want = [0.25 * (i + 1) + (0.125 if who == 1 else 0.0) for i in range(len(calls[who]) - 1)]
+                if gaps != want:
+                    viols.append(viol("delay", "overlapping-calls/own-pause", {f"caller {who}": want}, gaps, trace=w.trace))
         out = f"concurrent/{len(calls[0])}+{len(calls[1])}"
         return Result(out, True, viols[:3], {"trace": w.trace, "calls": [[c["kind"] for c in calls[0]], [c["kind"] for c in calls[1]]]})
     finally:
